@@ -23,6 +23,7 @@ def build_jobs(t: str, sd: int):
             fams += gen_subs.random_sub_family("A", v, sd, 25)
         elif v in (6, 8):
             fams += gen_subs.abi_sub_family("A", v)
+            fams += gen_subs.random_sub_family("A", v, sd, 8)
         for (name, rec, opts) in fams:
             for oi, opt in enumerate(gen_subs.sub_options(v, thorough)):
                 if oi > 0 and not thorough and "abi-fact" in name:
@@ -46,7 +47,7 @@ def main() -> int:
     results = run_jobs("verif.tvjob:tv_recipe_job", jobs)
     mjobs = []
     for j in jobs:
-        if j["id"].startswith("sub:") and not j.get("no_modular"):
+        if j["id"].startswith("sub:") and not j.get("no_modular") and not j["id"].startswith("sub:trail"):
             mj = dict(j)
             mj["id"] = "modular:" + j["id"]
             mj["loop_k"] = 3
